@@ -2,7 +2,7 @@
 C08 — lemmas about the accessor layer: mixed-radix arithmetic (big-endian `unravel` vs the
 little-endian digits the C++ loops produce), `at_flat`, the `iterator_base` odometer.
 -/
-import Mahotas.Model.C08
+import Mahotas.Model.C08Base
 import Mathlib.Tactic.Ring
 import Mathlib.Tactic.Linarith
 namespace Mahotas.C08
